@@ -1,7 +1,7 @@
 (* C12 — EBP codec: decode is exact, re-encode is byte-identical, built EBPs encode/decode, time survives to 1 ns.
    This file holds only the property statements; proofs live in Proofs/Ebp*.v.
    Model: Model/Ebp.v (ebp/*.go with the repairs of F3 and of the CableLabs grouping loop); Spec: Spec/EbpSpec.v. *)
-From Gots Require Import Base.Prelude Model.Ebp Spec.EbpSpec Proofs.EbpTime Proofs.EbpSync Proofs.EbpDecode Proofs.EbpReencode Proofs.EbpBuild Proofs.EbpSetters.
+From Gots Require Import Base.Prelude Model.Ebp Spec.EbpSpec Proofs.EbpTime Proofs.EbpSync Proofs.EbpDecode Proofs.EbpReencode Proofs.EbpBuild Proofs.EbpSetters Proofs.EbpTimeExact.
 Import Ebp EbpSpec.
 
 (* ---- decode is exact: the readers (g = false: the code as it is; g = true: with the C05 guard patch) invert the Spec serialisers, for every well-formed logical
@@ -167,6 +167,15 @@ Theorem C12_ebptime_ntp : forall e : t, TimeSeconds e < 4294967296 -> TimeFracti
   EBPTime e = EbpSpec.ntp_ns (TimeSeconds e) (TimeFraction e).
 Proof. exact ebptime_ntp. Qed.
 Print Assumptions C12_ebptime_ntp.
+
+(* sharper: the instant read back is EXACT, except for the 511 sub-second values per second n = k * 5^9 - 1 (k = 1..511), where
+   the 32-bit fraction is a whole multiple of 2^23 and the instant comes back exactly 1 ns late; it is never early *)
+Theorem C12_time_exact_iff : forall (e : t) (tm : Z),
+  (2147483648 * 1000000000 <= tm < (4294967296 + 2147483648) * 1000000000)%Z ->
+  EBPTime (SetEBPTime e tm) =
+    (if ((tm mod 1000000000 + 1) mod 1953125 =? 0) && (tm mod 1000000000 <? 999999999) then tm + 1 else tm)%Z.
+Proof. exact time_exact_iff. Qed.
+Print Assumptions C12_time_exact_iff.
 
 (* the same through the wire: SetEBPTime, Data(), decode, EBPTime *)
 Theorem C12_time_survives_wire_comcast : forall (g : bool) (e : t) (tm : Z),
